@@ -48,6 +48,9 @@ ASSUMPTIONS = [
     "in-place mutation of an option that also has a pending whole-value assignment is not generated (DESIGN C10 L)",
     "comma-list options are judged on the wire form only: one joined value or one item per element (DESIGN C10 L)",
     "an option whose pending value equals what Tor already holds may or may not be named by the SETCONF",
+    "list elements and String/Filename values may equal marker-like strings ('DEFAULT', 'default', 'NEVER', 'auto', '0'), "
+    "built at run time (fresh objects) in two steps of three and as interned literals in the third: they are ordinary "
+    "values and go out like any other",
     "list elements may be ints (incl. 0), booleans or the empty string: each goes out as str(element); a list holding an "
     "empty-string element is judged on the wire only ('Key=' is a clear in Tor's grammar)",
     "assignments that the declared type cannot validate (Integer-like = 'seven' / None, Boolean+Auto = 'auto', LineList = "
@@ -80,7 +83,7 @@ FLOORS = {
               "reads_compared": 1300, "second_save_checks": 600, "midack_edits": 80, "inplace_ops": 500,
               "escaped_values_decoded": 80, "assigned_from_other_option": 150, "overlapping_saves": 120,
               "overlap_outcomes_checked": 50, "invalid_assignments": 100, "invalid_assignments_on_pending_option": 25,
-              "foreign_events": 150, "foreign_events_on_pending_option": 40, "crlf_values_decoded": 40, "held_object_edits": 20,
+              "foreign_events": 150, "foreign_events_on_pending_option": 40, "crlf_values_decoded": 40, "held_object_edits": 20, "marker_like_values_runtime": 60,
               "reach:txtorcon.torconfig:TorConfig.save": 1500,
               "reach:txtorcon.torconfig:TorConfig.mark_unsaved": 500,
               "reach:txtorcon.torconfig:TorConfig._save_completed": 650,
@@ -306,6 +309,8 @@ def gen_assign_value(rnd, typ):
         else:
             v[rnd.randrange(len(v))] = odd_elem(rnd, typ)
         return v
+    if typ in CT.STR_TYPES and rnd.random() < 0.04 and not PLAIN[0]:
+        return rnd.choice(MARKERS)
     if typ in CT.STR_TYPES and rnd.random() < 0.3:
         return nasty(rnd, v)
     if typ == CT.LINELIST and v and rnd.random() < 0.3:
@@ -345,7 +350,25 @@ def _gen_assign_value(rnd, typ):
     return out
 
 
+MARKERS = ["DEFAULT", "DEFAULT", "default", "NEVER", "auto", "0"]     # strings that look like txtorcon / Tor markers
+
+
+def materialize(v, mode):
+    """marker-like strings as the application would hold them: built at run time (a fresh object: user input, a file)
+    or written as a literal in its source (the interned object)"""
+    import sys
+    if isinstance(v, list):
+        return [materialize(x, mode) for x in v]
+    if isinstance(v, str) and v in MARKERS:
+        return sys.intern(v) if mode == "literal" else "".join(list(v))
+    return v
+
+
 def odd_elem(rnd, typ):
+    if rnd.random() < 0.35 and not PLAIN[0]:
+        # (not with Tor's echo on: 'Key=DEFAULT' in an event is not distinguishable from the bare key after
+        # txtorcon's reply parsing - event decoding is C11/C13's subject)
+        return rnd.choice(MARKERS)
     """list elements that are not (non-empty) strings: ints incl. 0, booleans, the empty string;
     on the wire each is str(element), once, in order"""
     k = CT.kind_of(typ)
@@ -794,6 +817,8 @@ def vfeat(v):
         f.add("empty-string-element")
     if isinstance(v, list) and any(x in ("0", "False") for x in vals):
         f.add("zero-or-false-element")
+    if "DEFAULT" in vals:
+        f.add("equals-DEFAULT")
     for x in vals:
         if '"' in x:
             f.add("dquote")
@@ -832,6 +857,8 @@ class Run(object):
         self.rejected_before = False
         self.decoded = 0
         self.overlap_tag = None
+        self.marker_steps = 0
+        self.default_modes = set()   # how elements / values equal to 'DEFAULT' were built in this case
         self.held = {}               # option -> the list object the application got at its last in-place edit
         self.evented = set()         # options that had a pending local change when a CONF_CHANGED named them
         self.failed_assign = set()   # options that had a pending change when an assignment to them failed validation
@@ -846,6 +873,8 @@ class Run(object):
         if n in self.m.pending:
             parts.append(self.m.pending[n][0])
         parts.extend(extra)
+        if "equals-DEFAULT" in parts and self.default_modes:
+            parts.append("built:" + "/".join(sorted(self.default_modes)))
         if n in self.failed_assign:
             parts.append("after-failed-assignment")
         if n in self.evented:
@@ -857,6 +886,19 @@ class Run(object):
         elif self.rejected_before:
             parts.append("after-rejection")
         return "+".join(parts)
+
+    def marker_mode(self, st):
+        """literal for every third step that carries a marker-like string, run-time built otherwise (deterministic)"""
+        txt = repr(st.get("value")) + repr(st.get("args"))
+        if not any(repr(mk) in txt for mk in set(MARKERS)):
+            return "runtime"
+        import zlib
+        self.marker_steps += 1
+        mode = st.get("markers") or ("literal" if zlib.crc32(txt.encode("latin1", "replace")) % 3 == 0 else "runtime")
+        self.rec.count("marker_like_values_" + mode)
+        if "'DEFAULT'" in txt:
+            self.default_modes.add(mode)
+        return mode
 
     # -- one edit on the real object ------------------------------------------
     def do_edit(self, st, cfg, link, where="between-saves"):
@@ -884,7 +926,8 @@ class Run(object):
                 else:
                     self.V("invalid-value-accepted", self.m.klass(st["opt"]), {"step": st})
             elif st["op"] == "assign":
-                setattr(cfg, st["name"], list(st["value"]) if isinstance(st["value"], list) else st["value"])
+                v = materialize(st["value"], self.marker_mode(st))
+                setattr(cfg, st["name"], list(v) if isinstance(v, list) else v)
             else:
                 if st.get("held") and st["opt"] in self.held:
                     lst = self.held[st["opt"]]          # the object obtained at the previous in-place edit
@@ -892,7 +935,7 @@ class Run(object):
                 else:
                     lst = getattr(cfg, st["name"])
                 self.held[st["opt"]] = lst
-                a = st["args"]
+                a = materialize(st["args"], self.marker_mode(st))
                 meth = st["method"]
                 if meth == "setitem":
                     lst[a[0]] = a[1]
@@ -1006,6 +1049,9 @@ class Run(object):
                     if vals not in ([None], [""]):
                         self.V("emptied-list-not-cleared", kind, {"line": line, "option": c, "got": vals})
                 elif vals != want and not (kind == "commalist" and vals == [",".join(want)]):
+                    if "DEFAULT" in want and [x for x in want if x != "DEFAULT"] == vals:
+                        self.V("list-elements", "element-equals-DEFAULT+built:" + ("literal" if "literal" in self.default_modes else "runtime"),
+                               {"line": line, "option": c, "want": want, "got": vals})
                     clause = "list-elements"
                     if sorted(map(str, vals)) == sorted(want):
                         clause = "list-order"
@@ -1020,6 +1066,9 @@ class Run(object):
                 self.rec.seen("value_features", vfeat(want))
         for c in sorted(must):
             if c not in groups:
+                if isinstance(must[c][1], list) and must[c][1] and set(must[c][1]) == {"DEFAULT"}:
+                    self.V("list-elements", "element-equals-DEFAULT+built:" + ("literal" if "literal" in self.default_modes else "runtime"),
+                           {"line": line, "option": c, "want": must[c][1], "got": []})
                 if must[c][1] == []:
                     self.V("emptied-list-not-cleared", m.kind(c), {"line": line, "option": c})
                 self.V("changed-option-missing", self.cls(c), {"line": line, "option": c, "want": must[c][1]})
@@ -1069,11 +1118,15 @@ class Run(object):
                     ok, why = CT.read_matches(read, m.types[n], store, None)
                     if not ok and (why == "type" or (store and str(read) == store[-1])):
                         ok = True         # value types are C11's subject
+                    if not ok and store == ["DEFAULT"]:
+                        self.V("read-after-ack", "scalar-value-equals-DEFAULT", {"option": n, "read": repr(read), "store": store})
                     if not ok:
                         self.V("read-after-ack", (m.kind(n) + "+after-" + self.overlap_tag) if self.overlap_tag else m.klass(n),
                                {"option": n, "read": repr(read), "store": store})
                 else:
-                    got = [str(x) for x in read if x != "DEFAULT"] if isinstance(read, list) else None
+                    got = [str(x) for x in read] if isinstance(read, list) else None
+                    if got is not None and got != store:
+                        got = [x for x in got if x != "DEFAULT"] if "DEFAULT" not in store else got
                     # a cleared option falls back to Tor's default: [] and the default are both "the saved value"
                     if got != store and not (got == [] and delivered[n][1] == []):
                         self.V("read-after-ack", m.klass(n) + "+" + delivered[n][0],
@@ -1108,7 +1161,7 @@ class Run(object):
         n0 = len(link.transport.writes)
         changed = tor.external_change([(k, v) for k, v in st["items"]])
         link.pump()
-        m.event(st["items"])
+        m.event([it for it in st["items"] if it[0] in changed])      # Tor announces only what really changed
         rec.count("foreign_events")
         names = sorted({k for k, _ in st["items"]})
         on_pending = [n for n in names if n in had and n in changed]
@@ -1256,10 +1309,14 @@ class Run(object):
                 ok, why = CT.read_matches(read, m.types[n], got, None)
                 if not ok and (why == "type" or (got and str(read) == got[-1])):
                     ok = True
+                if not ok and got == ["DEFAULT"]:
+                    self.V("read-after-ack", "scalar-value-equals-DEFAULT", {"option": n, "read": repr(read), "store": got})
                 if not ok:
                     self.V("read-after-ack", "scalar+" + rcls, {"option": n, "read": repr(read), "store": got})
             else:
-                rl = [str(x) for x in read if x != "DEFAULT"] if isinstance(read, list) else None
+                rl = [str(x) for x in read] if isinstance(read, list) else None
+                if rl is not None and rl != got and "DEFAULT" not in got:
+                    rl = [x for x in rl if x != "DEFAULT"]
                 if rl != got and not (rl == [] and want == []):
                     self.V("read-after-ack", m.kind(n) + "+" + rcls, {"option": n, "read": repr(read), "store": got})
         must = m.must()
